@@ -121,6 +121,25 @@ impl SeparableNonlinearModel for Caching {
     fn eval_partial_deriv(&self, derivative_index: usize) -> Result<DMatrix<f64>, Self::Error> { self.inner.eval_partial_deriv(derivative_index) }
 }
 
+/// a model whose partial derivatives fail for the calls with index in [from, until) (counted over the model's life): lets a
+/// failure be placed after the minimisation, inside the statistics (C09: fault at ANY call index)
+struct LateFail { inner: varpro::model::SeparableModel<f64>, calls: std::rc::Rc<std::cell::Cell<usize>>, from: usize, until: usize }
+impl SeparableNonlinearModel for LateFail {
+    type ScalarType = f64;
+    type Error = ModelError;
+    fn parameter_count(&self) -> usize { self.inner.parameter_count() }
+    fn base_function_count(&self) -> usize { self.inner.base_function_count() }
+    fn output_len(&self) -> usize { self.inner.output_len() }
+    fn set_params(&mut self, parameters: DVector<f64>) -> Result<(), Self::Error> { self.inner.set_params(parameters) }
+    fn params(&self) -> DVector<f64> { self.inner.params() }
+    fn eval(&self) -> Result<DMatrix<f64>, Self::Error> { self.inner.eval() }
+    fn eval_partial_deriv(&self, derivative_index: usize) -> Result<DMatrix<f64>, Self::Error> {
+        let k = self.calls.get();
+        self.calls.set(k + 1);
+        if k >= self.from && k < self.until { Err(ModelError::DerivativeIndexOutOfBounds { index: derivative_index }) } else { self.inner.eval_partial_deriv(derivative_index) }
+    }
+}
+
 fn algebra_sweep() {
     let mut f = Findings::new();
     for &(n, m, p) in [(8usize, 2usize, 2usize), (9, 3, 2)].iter() {
@@ -172,6 +191,47 @@ fn algebra_sweep() {
             let alpha = fr.nonlinear_parameters();
             let o = oracle(n, m, p, alpha.as_slice(), &Some(w.clone()), &y);
             match fr.best_fit() { Some(bf) => if let Some(d) = close(&bf, &o.fit) { f.report("C02 C06", "best_fit() differs from Phi(alpha) * C", format!("(max abs diff {:e}) for a converged fit with N={} S={} and zero weights at rows 3,7", d, n, s)); }, None => f.report("C02 C04", "best_fit() == None after a successful fit", String::new()) }
+        }
+    }
+    // C01, rank-deficient and thresholded cases: the coefficients are the minimum-norm minimiser, and singular values of W*Phi at
+    // or below the configured threshold count as zero. Oracles: (a) closed form for the dependent columns f, 2f:
+    // c = (1,2)^T (u.Wy)/(5 u.u), u = W f; (b) the truncated pseudo-inverse of W*Phi formed in this file
+    {
+        let n = 12usize;
+        let x = DVector::from_fn(n, |i, _| 10. * i as f64 / (n - 1) as f64);
+        let ed = |x: &DVector<f64>, tau: f64| x.map(|x| (-x / tau).exp());
+        let edd = |x: &DVector<f64>, tau: f64| x.map(|x| (-x / tau).exp() * x / (tau * tau));
+        for wk in 0..2 {
+            let w = DVector::from_fn(n, |i, _| if wk == 0 { 1.0 } else { 0.5 + 0.25 * (i % 3) as f64 });
+            let wm = DMatrix::from_diagonal(&w);
+            let y = DVector::from_fn(n, |i, _| 3. * (-x[i] / 2.).exp() + 0.3 + 0.01 * (1.7 * x[i]).sin());
+            let wt = if wk == 0 { "" } else { " C06" };
+            // (a) f and 2f
+            let dep = || SeparableModelBuilder::<f64>::new(&["tau"]).initial_parameters(vec![2.0]).independent_variable(x.clone())
+                .function(&["tau"], ed).partial_deriv("tau", edd)
+                .function(&["tau"], move |x: &DVector<f64>, tau: f64| 2. * ed(x, tau)).partial_deriv("tau", move |x: &DVector<f64>, tau: f64| 2. * edd(x, tau))
+                .build().unwrap();
+            let pr = LevMarProblemBuilder::new(dep()).observations(y.clone()).weights(w.clone()).build().unwrap();
+            let u = &wm * ed(&x, 2.0);
+            let k = u.dot(&(&wm * &y)) / (5. * u.dot(&u));
+            let expect = DMatrix::from_column_slice(2, 1, &[k, 2. * k]);
+            match pr.linear_coefficients() {
+                Some(c) => if let Some(d) = close(&colm(c.into_owned().as_slice()), &expect) { f.report(&format!("C01{}", wt), "linear_coefficients() of a rank-deficient problem are not the minimum-norm minimiser", format!("(max abs diff {:e}) for basis functions f, 2f: expected {:?}, got {:?}", d, expect.as_slice(), c.as_slice())); },
+                None => f.report("C01 C09", "linear_coefficients() == None for a rank-deficient problem", String::new()),
+            }
+            // (b) a tiny column and a threshold far above its singular value
+            let eps = 1e-3;
+            let tiny = || SeparableModelBuilder::<f64>::new(&["tau"]).initial_parameters(vec![2.0]).independent_variable(x.clone())
+                .function(&["tau"], ed).partial_deriv("tau", edd)
+                .invariant_function(|x: &DVector<f64>| 1e-6 * x)
+                .build().unwrap();
+            let pr = LevMarProblemBuilder::new(tiny()).observations(y.clone()).weights(w.clone()).epsilon(eps).build().unwrap();
+            let a = &wm * tiny().eval().unwrap();
+            let expect = a.clone().pseudo_inverse(eps).unwrap() * (&wm * &y);
+            match pr.linear_coefficients() {
+                Some(c) => if let Some(d) = close(&colm(c.into_owned().as_slice()), &colm(expect.as_slice())) { f.report(&format!("C01{}", wt), "linear_coefficients() ignore the singular-value threshold of W*Phi", format!("(max abs diff {:e}) for basis functions f, 1e-6*x and epsilon {:e}: expected {:?}, got {:?}", d, eps, expect.as_slice(), c.as_slice())); },
+                None => f.report("C01 C09", "linear_coefficients() == None for a thresholded problem", String::new()),
+            }
         }
     }
     // C10: no uninitialised memory. With y = 0 the coefficients are exactly zero, so every Jacobian column is exactly zero; the
@@ -252,7 +312,27 @@ fn stats_sweep() {
             f.report(&format!("C14{}", wt), "confidence_band_radius(0.9) is not t(0.95; 26) * sqrt(j_i^T Cov j_i) for every sample (t = 1.7056)", cfg.clone());
         }
     }
-    f.finish("statistics agree with their defining formulas (4 weight / scale cases)");
+    // C09: a derivative that fails AFTER the minimisation (inside the statistics) makes fit_with_statistics return Err, no panic
+    {
+        let (n, m, p) = (30usize, 2usize, 2usize);
+        let y = ydata(n, 1).column(0).into_owned();
+        let calls = std::rc::Rc::new(std::cell::Cell::new(0usize));
+        let mk = |from: usize, until: usize| { calls.set(0); LevMarProblemBuilder::new(LateFail { inner: model(n, m, p), calls: calls.clone(), from, until }).observations(y.clone()).build().unwrap() };
+        if LevMarSolver::default().fit(mk(usize::MAX, usize::MAX)).is_ok() {
+            let t = calls.get(); // derivative calls made by construction + minimisation
+            for (from, until, what) in [(t, usize::MAX, "every derivative call after the minimisation fails"), (t, t + 1, "only the first derivative call of the statistics fails"), (t + 1, t + 2, "only the second derivative call of the statistics fails")] {
+                let pr = mk(from, until);
+                let r = std::panic::catch_unwind(std::panic::AssertUnwindSafe(|| LevMarSolver::default().fit_with_statistics(pr).is_ok()));
+                let made = calls.get();
+                match r {
+                    Err(_) => f.report("C09 C08", "fit_with_statistics panics when a derivative fails during the statistics", format!("({}; {} derivative calls before the statistics)", what, t)),
+                    Ok(true) if made > from => f.report("C09 C12", "fit_with_statistics returns Ok although the model reported an error during the statistics", format!("({}; {} derivative calls before the statistics)", what, t)),
+                    _ => {}
+                }
+            }
+        }
+    }
+    f.finish("statistics agree with their defining formulas (4 weight / scale cases); late derivative failures give Err");
 }
 
 fn xs(n: usize) -> DVector<f64> { DVector::from_vec((1..=n).map(|i| i as f64).collect::<Vec<_>>()) }
@@ -292,6 +372,38 @@ fn model_sweep() {
         }
         if mo.params().as_slice() != vals { f.report("C16", "params() does not return the parameters in model order", String::new()); }
     }
+    // ---- C16 at scale: 130 parameters, function j takes (p_j, p_{(j+65) % 130}); d/dp_k is non-zero exactly in columns k and (k+65)%130
+    {
+        let np = 130usize;
+        let names: Vec<String> = (0..np).map(|i| format!("p{}", i)).collect();
+        let mut b = SeparableModelBuilder::<f64>::new(&names);
+        for j in 0..np {
+            let (n1, n2) = (names[j].clone(), names[(j + 65) % np].clone());
+            let (c1, c2) = (1.0 + j as f64, 1000.0 + j as f64);
+            b = b.function([n1.clone(), n2.clone()], move |x: &DVector<f64>, a: f64, q: f64| x.map(|x| x * (c1 * a + c2 * q)))
+                .partial_deriv(n2, move |x: &DVector<f64>, _a: f64, _q: f64| x.map(|x| x * c2))
+                .partial_deriv(n1, move |x: &DVector<f64>, _a: f64, _q: f64| x.map(|x| x * c1));
+        }
+        let vals: Vec<f64> = (0..np).map(|i| 0.5 + i as f64).collect();
+        match b.independent_variable(xs(2)).initial_parameters(vals.clone()).build() {
+            Err(e) => f.report("C15", "a valid specification with 130 parameters is rejected", format!("({:?})", e)),
+            Ok(mo) => {
+                match mo.eval() {
+                    Ok(phi) => if (0..np).any(|j| phi[(1, j)] != 2.0 * ((1.0 + j as f64) * vals[j] + (1000.0 + j as f64) * vals[(j + 65) % np])) { f.report("C16", "eval(): a function does not receive exactly its named parameters (130-parameter model)", String::new()); },
+                    Err(e) => f.report("C16 C17", "eval() of a valid 130-parameter model fails", format!("{:?}", e)),
+                }
+                for k in 0..np {
+                    match mo.eval_partial_deriv(k) {
+                        Ok(d) => {
+                            let bad = (0..np).find(|&j| { let want = if j == k { 1.0 + j as f64 } else if (j + 65) % np == k { 1000.0 + j as f64 } else { 0.0 }; d[(0, j)] != want || d[(1, j)] != 2.0 * want });
+                            if let Some(j) = bad { f.report("C16", "eval_partial_deriv(k): a derivative is not placed under the model index of its parameter name (130-parameter model)", format!("first at k={} column {}: got {:?}", k, j, (d[(0, j)], d[(1, j)]))); }
+                        }
+                        Err(e) => f.report("C16 C17", "eval_partial_deriv of a valid 130-parameter model fails", format!("k={} {:?}", k, e)),
+                    }
+                }
+            }
+        }
+    }
     // ---- C15: acceptance matrix of the model builder (one defect per sequence)
     let f1 = |x: &DVector<f64>, a: f64| x.map(|x| x * a);
     let f2 = |x: &DVector<f64>, a: f64, b: f64| x.map(|x| x * a + b);
@@ -312,6 +424,13 @@ fn model_sweep() {
     expect("duplicate function parameters", ok(base().function(["a", "a"], f2).partial_deriv("a", f2)), false);
     expect("model parameter b used by no function", ok(base().function(["a"], f1).partial_deriv("a", f1)), false);
     expect("partial_deriv directly after invariant_function", ok(valid().invariant_function(|x: &DVector<f64>| x.clone()).partial_deriv("a", f2)), false);
+    expect("partial_deriv after independent_variable (pending function incomplete)", base().function(["a", "b"], f2).partial_deriv("a", f2).independent_variable(xs(3)).partial_deriv("b", f2).initial_parameters(vec![1., 2.]).build().is_ok(), false);
+    expect("partial_deriv after initial_parameters (pending function incomplete)", base().function(["a", "b"], f2).partial_deriv("a", f2).initial_parameters(vec![1., 2.]).partial_deriv("b", f2).independent_variable(xs(3)).build().is_ok(), false);
+    expect("stray partial_deriv after independent_variable (function already complete)", valid().independent_variable(xs(3)).partial_deriv("a", f2).initial_parameters(vec![1., 2.]).build().is_ok(), false);
+    expect("independent_variable and initial_parameters between two complete functions", base().function(["a"], f1).partial_deriv("a", f1).independent_variable(xs(3)).initial_parameters(vec![1., 2.]).function(["b"], f1).partial_deriv("b", f1).build().is_ok(), true);
+    expect("comma in the last model parameter name", ok(SeparableModelBuilder::<f64>::new(["a", "b,c"]).function(["a", "b,c"], f2).partial_deriv("a", f2).partial_deriv("b,c", f2)), false);
+    expect("comma in the only model parameter name", SeparableModelBuilder::<f64>::new(["a,b"]).function(["a,b"], f1).partial_deriv("a,b", f1).independent_variable(xs(3)).initial_parameters(vec![1.]).build().is_ok(), false);
+    expect("comma in the last parameter name of a function", ok(base().function(["a", "b,"], f2).partial_deriv("a", f2).partial_deriv("b,", f2)), false);
     expect("no basis function at all", ok(base()), false);
     expect("missing independent variable", valid().initial_parameters(vec![1., 2.]).build().is_ok(), false);
     expect("missing initial guess", valid().independent_variable(xs(3)).build().is_ok(), false);
@@ -328,7 +447,7 @@ fn model_sweep() {
     for round in 0..2 { if bad.eval().is_ok() { f.report("C17", "eval() accepts a basis function whose output has the wrong length", format!("(call #{})", round + 1)); } }
     let badd = SeparableModelBuilder::<f64>::new(["a"]).function(["a"], f1).partial_deriv("a", |_x: &DVector<f64>, _a: f64| DVector::from_vec(vec![1.])).independent_variable(xs(3)).initial_parameters(vec![1.]).build().unwrap();
     for round in 0..2 { if badd.eval_partial_deriv(0).is_ok() { f.report("C17", "eval_partial_deriv() accepts a derivative whose output has the wrong length", format!("(call #{})", round + 1)); } }
-    f.finish("routing (4 parameter orders), the builder acceptance matrix (19 sequences) and the misuse cases behave as specified");
+    f.finish("routing (4 parameter orders, a 130-parameter model), the builder acceptance matrix (26 sequences) and the misuse cases behave as specified");
 }
 
 fn main() {
